@@ -577,6 +577,8 @@ func main() {
 		Enabled:  func(h []event) []event { return alphabet },
 		Exec:     func(h []event) (string, string, *seqx.Failure) { return exec(r, h) },
 		MaxDepth: depth, Workers: 16,
+		// every history of length <= 4 (21^4) is executed whatever the canonical key says
+		NoMergeDepth: 3,
 	})
 	r.Set("traces_validated_against_impl", r.Count("transitions"))
 	if debBest != "" {
